@@ -3,7 +3,7 @@
 id=$1; pid=$2; shift; shift
 d=/tmp/mut_$id
 rm -rf $d; mkdir -p $d && cp -r /repo/include $d/include && (cd $d && patch -p1 -s < /verif/seeded/$id/patch.diff) || { echo "patch failed"; exit 3; }
-cd /verif && VERIF_REPO=$d python3 runner.py $pid "$@"
+cd /verif && VERIF_EVIDENCE_DIR=/tmp/mut_evidence VERIF_REPO=$d python3 runner.py $pid "$@"
 rc=$?
 rm -rf $d
 echo "mutrun $id $pid exit=$rc"
